@@ -59,50 +59,152 @@ def classify_test(test, var):
     raise GenError("unrecognised test on the looked-up instance: " + ast.dump(test)[:160])
 
 
-def mode_branches(func):
-    """the if/elif chain on `instance_mode == "<literal>"` -> {mode: body}, else-body"""
+def is_log_stmt(st):
+    """`log.debug(...)` and friends, docstrings: ignored completely"""
+    if isinstance(st, ast.Expr) and isinstance(st.value, ast.Constant):
+        return True
+    return isinstance(st, ast.Expr) and isinstance(st.value, ast.Call) and isinstance(st.value.func, ast.Attribute) \
+        and isinstance(st.value.func.value, ast.Name) and st.value.func.value.id in ("log", "logging", "logger")
+
+
+def ends_in_exit(body):
+    return bool(body) and isinstance(body[-1], (ast.Return, ast.Raise))
+
+
+def walk_no_defs(node):
+    """ast.walk that does not descend into nested function / class definitions"""
+    todo = list(ast.iter_child_nodes(node))
+    while todo:
+        n = todo.pop()
+        yield n
+        if not isinstance(n, (ast.FunctionDef, ast.AsyncFunctionDef, ast.Lambda, ast.ClassDef)):
+            todo.extend(ast.iter_child_nodes(n))
+
+
+def mode_branches(func, clazz_name):
+    """the dispatch on `<mode> == "<literal>"`: an if/elif chain or consecutive ifs that each end in return/raise,
+    followed by a raise -> {mode: body}"""
     modevar = None
-    for st in func.body:
+    for st in walk_no_defs(func):
         if isinstance(st, ast.Assign) and len(st.targets) == 1 and isinstance(st.targets[0], ast.Tuple) \
                 and len(st.targets[0].elts) == 2 and all(isinstance(e, ast.Name) for e in st.targets[0].elts) \
-                and is_attr(st.value, "clazz", "_pyroInstancing"):
+                and is_attr(st.value, clazz_name, "_pyroInstancing"):
+            need(modevar is None, "_getInstance unpacks _pyroInstancing more than once")
             modevar = st.targets[0].elts[0].id
-            creatorvar = st.targets[0].elts[1].id
     need(modevar is not None, "_getInstance does not unpack clazz._pyroInstancing into (mode, creator)")
-    chains = [st for st in func.body if isinstance(st, ast.If)]
-    need(len(chains) == 1, "_getInstance: expected exactly one top-level if-chain on the instance mode")
-    node, out = chains[0], {}
-    while True:
-        t = node.test
-        need(isinstance(t, ast.Compare) and isinstance(t.left, ast.Name) and t.left.id == modevar and len(t.ops) == 1
-             and isinstance(t.ops[0], ast.Eq) and isinstance(t.comparators[0], ast.Constant)
-             and isinstance(t.comparators[0].value, str), "_getInstance: mode test is not `%s == \"<literal>\"`" % modevar)
-        m = t.comparators[0].value
-        need(m not in out, "duplicate branch for mode " + m)
-        out[m] = node.body
-        if len(node.orelse) == 1 and isinstance(node.orelse[0], ast.If):
-            node = node.orelse[0]
+    out, fallthrough_raises, seen_dispatch = {}, False, False
+    for st in func.body:
+        if isinstance(st, (ast.FunctionDef,)) or is_log_stmt(st):
             continue
-        orelse = node.orelse
-        break
+        if isinstance(st, (ast.Assign, ast.Try)) and not seen_dispatch:
+            continue                    # the unpacking, possibly guarded
+        if isinstance(st, ast.If):
+            seen_dispatch = True
+            node = st
+            while True:
+                t = node.test
+                need(isinstance(t, ast.Compare) and isinstance(t.left, ast.Name) and t.left.id == modevar and len(t.ops) == 1
+                     and isinstance(t.ops[0], ast.Eq) and isinstance(t.comparators[0], ast.Constant)
+                     and isinstance(t.comparators[0].value, str), "_getInstance: mode test is not `%s == \"<literal>\"`" % modevar)
+                m = t.comparators[0].value
+                need(m not in out, "duplicate branch for mode " + m)
+                out[m] = node.body
+                if len(node.orelse) == 1 and isinstance(node.orelse[0], ast.If):
+                    node = node.orelse[0]
+                    continue
+                if node.orelse:
+                    need(len(node.orelse) == 1 and isinstance(node.orelse[0], ast.Raise), "_getInstance: the final else does not raise")
+                    fallthrough_raises = True
+                break
+            continue
+        if isinstance(st, ast.Raise) and seen_dispatch:
+            fallthrough_raises = True
+            continue
+        raise GenError("_getInstance: unrecognised top-level statement at line %d" % st.lineno)
     need(set(out) == {"single", "session", "percall"}, "_getInstance: branches are %s, expected single/session/percall" % sorted(out))
-    need(len(orelse) == 1 and isinstance(orelse[0], ast.Raise), "_getInstance: the final else does not raise")
-    # statements after the chain would run for every mode
-    idx = func.body.index(chains[0])
-    need(idx == len(func.body) - 1, "_getInstance: statements after the mode dispatch")
-    return out, creatorvar
+    need(fallthrough_raises, "_getInstance: an unknown mode is not rejected")
+    return out
 
 
-def analyse_branch(body, table, lock_ok_attrs):
+def helper_call(node):
+    """name of the helper if node is `name(...)`, `self.name(...)` or `Daemon.name(...)`"""
+    if isinstance(node, ast.Call):
+        if isinstance(node.func, ast.Name):
+            return node.func.id
+        if isinstance(node.func, ast.Attribute) and isinstance(node.func.value, ast.Name) and node.func.value.id in ("self", "Daemon", "cls"):
+            return node.func.attr
+    return None
+
+
+def creator_helpers(cls, func):
+    """names of functions (nested in _getInstance, or methods of Daemon) that call one of their own parameters:
+    the place where `creator(clazz)` / `clazz()` happens"""
+    out = set()
+    methods = {n.name: n for n in cls.body if isinstance(n, ast.FunctionDef) and n is not func}
+    reach, frontier = set(), [func]
+    for _ in range(3):                   # methods of Daemon that _getInstance delegates to, up to three levels deep
+        nxt = []
+        for f in frontier:
+            for n in ast.walk(f):
+                h = helper_call(n)
+                if h in methods and h not in reach:
+                    reach.add(h)
+                    nxt.append(methods[h])
+        frontier = nxt
+    cands = [n for n in func.body if isinstance(n, ast.FunctionDef)] + [methods[h] for h in sorted(reach)]
+    for f in cands:
+        params = {a.arg for a in f.args.args + f.args.kwonlyargs} - {"self", "cls"}
+        if any(isinstance(n, ast.Call) and isinstance(n.func, ast.Name) and n.func.id in params for n in ast.walk(f)):
+            out.add(f.name)
+    return out
+
+
+def resolve_branch(cls, body, env, creators, depth=0):
+    """a branch that only delegates (`return self._helper(clazz, ...)`) is replaced by the helper's body"""
+    stmts = [st for st in body if not is_log_stmt(st)]
+    if depth < 2 and len(stmts) == 1 and isinstance(stmts[0], ast.Return):
+        name = helper_call(stmts[0].value)
+        meth = [n for n in cls.body if isinstance(n, ast.FunctionDef) and n.name == name] if name else []
+        if len(meth) == 1 and name not in creators:
+            f = meth[0]
+            static = any(isinstance(d, ast.Name) and d.id == "staticmethod" for d in f.decorator_list)
+            params = [a.arg for a in f.args.args][0 if static else 1:]
+            newenv = dict(env, helpers=env["helpers"] + [name])
+            for p_, a in zip(params, stmts[0].value.args):
+                if isinstance(a, ast.Name) and a.id == env["clazz"]:
+                    newenv["clazz"] = p_
+                if isinstance(a, ast.Name) and a.id == env["conn"]:
+                    newenv["conn"] = p_
+            return resolve_branch(cls, f.body, newenv, creators, depth + 1)
+    return body, env
+
+
+def analyse_branch(body, table, lock_ok_attrs, env, creators):
     """facts about one get-or-create branch. Returns dict(test, locked, lock_attr)."""
     events = []          # (kind, inside_lock, node)
     locks = []           # lock attrs used, one entry per outermost region
+    tests = []
+
+    def tab(node):
+        if is_attr(node, "self", SINGLE_TABLE[1]):
+            return SINGLE_TABLE
+        if is_attr(node, env["conn"], SESSION_TABLE[1]):
+            return SESSION_TABLE
+        return None
+
+    def is_guard(node):
+        return isinstance(node, ast.If) and not node.orelse and all(isinstance(x, ast.Raise) or is_log_stmt(x) for x in node.body) \
+            and any(isinstance(x, ast.Raise) for x in node.body)
 
     def walk(node, depth):
+        if isinstance(node, ast.stmt) and (is_log_stmt(node) or is_guard(node)):
+            return                       # logging and pure rejection guards do not matter
         if isinstance(node, (ast.FunctionDef, ast.AsyncFunctionDef, ast.Lambda, ast.ClassDef)):
             raise GenError("nested definition inside a mode branch")
-        if isinstance(node, (ast.While, ast.For, ast.Try)):
-            raise GenError("loop/try inside a mode branch: not analysable")
+        if isinstance(node, (ast.While, ast.For)):
+            raise GenError("loop inside a mode branch: not analysable")
+        if isinstance(node, ast.If):
+            tests.append(node)
         if isinstance(node, ast.With):
             attrs = [it.context_expr.attr for it in node.items
                      if isinstance(it.context_expr, ast.Attribute) and isinstance(it.context_expr.value, ast.Name)
@@ -114,10 +216,10 @@ def analyse_branch(body, table, lock_ok_attrs):
             for st in node.body:
                 walk(st, depth + 1)
             return
-        t = table_of(node)
+        t = tab(node)
         if t is not None:
             events.append(("table:%s.%s" % t, depth > 0, node))
-        if isinstance(node, ast.Call) and isinstance(node.func, ast.Name) and node.func.id == "createInstance":
+        if helper_call(node) in creators:
             events.append(("create", depth > 0, node))
         for ch in ast.iter_child_nodes(node):
             walk(ch, depth)
@@ -127,24 +229,22 @@ def analyse_branch(body, table, lock_ok_attrs):
     tabs = [e for e in events if e[0].startswith("table:")]
     need(tabs and all(e[0] == want for e in tabs), "branch uses %s, expected only %s" % (sorted({e[0] for e in tabs}), want))
     creates = [e for e in events if e[0] == "create"]
-    need(len(creates) == 1, "branch calls createInstance %d times" % len(creates))
-    # lookup: X = <table>.get(clazz)
-    lookups, stores, tests = [], [], []
-    for st in ast.walk(ast.Module(body=body, type_ignores=[])):
+    need(len(creates) == 1, "branch creates an instance at %d places" % len(creates))
+    lookups, stores = [], []
+    for st in walk_no_defs(ast.Module(body=body, type_ignores=[])):
         if isinstance(st, ast.Assign) and len(st.targets) == 1 and isinstance(st.targets[0], ast.Name) \
                 and isinstance(st.value, ast.Call) and isinstance(st.value.func, ast.Attribute) \
-                and st.value.func.attr == "get" and table_of(st.value.func.value) == table:
-            need(len(st.value.args) == 1 and isinstance(st.value.args[0], ast.Name) and st.value.args[0].id == "clazz"
+                and st.value.func.attr == "get" and tab(st.value.func.value) == table:
+            need(len(st.value.args) == 1 and isinstance(st.value.args[0], ast.Name) and st.value.args[0].id == env["clazz"]
                  and not st.value.keywords, "table lookup is not .get(clazz)")
             lookups.append(st.targets[0].id)
         if isinstance(st, ast.Assign) and len(st.targets) == 1 and isinstance(st.targets[0], ast.Subscript) \
-                and table_of(st.targets[0].value) == table:
+                and tab(st.targets[0].value) == table:
             sl = st.targets[0].slice
-            need(isinstance(sl, ast.Name) and sl.id == "clazz", "table store is not [clazz] = ...")
+            need(isinstance(sl, ast.Name) and sl.id == env["clazz"], "table store is not [clazz] = ...")
             stores.append(st)
-        if isinstance(st, ast.If):
-            tests.append(st)
-    need(len(lookups) == 1, "expected exactly one `x = table.get(clazz)` (found %d)" % len(lookups))
+    need(len(lookups) == 1, "expected exactly one `x = table.get(clazz)` (found %d; an additional lookup outside the lock region, "
+         "i.e. double-checked locking, is not covered by the atomicity proof)" % len(lookups))
     need(len(stores) == 1, "expected exactly one `table[clazz] = x` (found %d)" % len(stores))
     need(len(tabs) == 2, "table is accessed %d times, expected lookup and store only" % len(tabs))
     need(len(tests) == 1, "expected exactly one if-statement in the branch (found %d)" % len(tests))
@@ -152,14 +252,15 @@ def analyse_branch(body, table, lock_ok_attrs):
     kind, pol = classify_test(tests[0].test, var)
     ifnode = tests[0]
     need(not ifnode.orelse, "if-statement in the branch has an else part")
-    contains_create = any(isinstance(n, ast.Call) and isinstance(n.func, ast.Name) and n.func.id == "createInstance"
-                          for n in ast.walk(ast.Module(body=ifnode.body, type_ignores=[])))
-    contains_store = any(n is stores[0] for n in ast.walk(ast.Module(body=ifnode.body, type_ignores=[])))
+    inner = list(ast.walk(ast.Module(body=ifnode.body, type_ignores=[])))
+    contains_create = any(n is creates[0][2] for n in inner)
+    contains_store = any(n is stores[0] for n in inner)
     if pol:
         need(contains_create and contains_store, "the create/store is not guarded by the test")
     else:
-        need(not contains_create and not contains_store and len(ifnode.body) == 1 and isinstance(ifnode.body[0], ast.Return)
-             and isinstance(ifnode.body[0].value, ast.Name) and ifnode.body[0].value.id == var,
+        rest = [x for x in ifnode.body if not is_log_stmt(x)]
+        need(not contains_create and not contains_store and len(rest) == 1 and isinstance(rest[0], ast.Return)
+             and isinstance(rest[0].value, ast.Name) and rest[0].value.id == var,
              "positive test must be `if <present>: return x`")
     inside = all(e[1] for e in events)
     locked = inside and len(locks) == 1
@@ -181,7 +282,7 @@ def daemon_locks(mod):
     return out
 
 
-def close_clears(mod):
+def close_clears_ast(mod):
     close = find_func(mod, "close", "SocketConnection")
     init = find_func(mod, "__init__", "SocketConnection")
     ok_init = any(isinstance(n, (ast.Assign, ast.AnnAssign)) and is_attr(n.targets[0] if isinstance(n, ast.Assign) else n.target, "self", "pyroInstances")
@@ -204,12 +305,58 @@ def close_clears(mod):
     return clears
 
 
-def other_table_sites(tree):
+def close_clears_probed(tree):
+    """second reader: SocketConnection of the tree under test is run with a recording stub socket whose shutdown()/close()
+    succeed or raise; close() must leave an empty session table in every case"""
+    from tools.gen.gen import tree_module
+    su = tree_module(tree, "Pyro5.socketutil")
+
+    class StubSock(object):
+        def __init__(self, bad_shutdown, bad_close):
+            self.bad_shutdown, self.bad_close = bad_shutdown, bad_close
+
+        def shutdown(self, how):
+            if self.bad_shutdown:
+                raise OSError(107, "Transport endpoint is not connected")
+
+        def close(self):
+            if self.bad_close:
+                raise OSError(9, "Bad file descriptor")
+
+        def fileno(self):
+            return -1
+    ok = True
+    for bs in (False, True):
+        for bc in (False, True):
+            conn = su.SocketConnection(StubSock(bs, bc))
+            need(isinstance(conn.pyroInstances, dict) and not conn.pyroInstances, "a new SocketConnection has no empty pyroInstances dict")
+            conn.pyroInstances[StubSock] = object()
+            try:
+                conn.close()
+            except Exception:      # noqa
+                ok = False
+            ok = ok and isinstance(conn.pyroInstances, dict) and len(conn.pyroInstances) == 0
+    return ok
+
+
+def close_clears(tree, mod):
+    """(clears?, mode): the ast reader first; when it does not recognise the shape (or says no) the probe decides"""
+    try:
+        if close_clears_ast(mod):
+            return True, "ast"
+        why = "ast reader: no unconditional top-level release"
+    except GenError as x:
+        why = "ast reader: %s" % x
+    return close_clears_probed(tree), "probed (%s)" % why
+
+
+def other_table_sites(tree, helper_names=()):
     """every mention of the two instance tables (attribute access or the bare name as a string) in Pyro5/*.py outside
     Daemon.__init__ / Daemon._getInstance / SocketConnection.__init__ / SocketConnection.close"""
     import glob, os
     allowed = {("server.py", "Daemon", "__init__"), ("server.py", "Daemon", "_getInstance"),
                ("socketutil.py", "SocketConnection", "__init__"), ("socketutil.py", "SocketConnection", "close")}
+    allowed |= {("server.py", "Daemon", h) for h in helper_names}     # private helpers _getInstance delegates to
     names = {"_pyroInstances", "pyroInstances"}
     sites = []
     files = sorted(glob.glob(os.path.join(tree, "Pyro5", "**", "*.py"), recursive=True))
@@ -243,29 +390,36 @@ def other_table_sites(tree):
 
 def extract(tree):
     mod, _ = parse(tree, "Pyro5/server.py")
+    cls = find_class(mod, "Daemon")
     func = find_func(mod, "_getInstance", "Daemon")
-    need([a.arg for a in func.args.args] == ["self", "clazz", "conn"], "_getInstance signature changed")
-    nested = [n for n in func.body if isinstance(n, ast.FunctionDef)]
-    need(len(nested) == 1 and nested[0].name == "createInstance", "_getInstance: expected the nested helper createInstance only")
-    branches, creatorvar = mode_branches(func)
+    params = [a.arg for a in func.args.args]
+    need(len(params) == 3 and params[0] == "self", "_getInstance signature changed")
+    env0 = {"clazz": params[1], "conn": params[2], "helpers": []}
+    creators = creator_helpers(cls, func)
+    need(creators, "no place where the creator / the class is called was found")
+    branches = mode_branches(func, env0["clazz"])
     locks = daemon_locks(mod)
-    single = analyse_branch(branches["single"], SINGLE_TABLE, set(locks))
-    session = analyse_branch(branches["session"], SESSION_TABLE, set(locks))
-    # percall: no table, exactly one create, returned directly
-    pc = branches["percall"]
+    body_s, env_s = resolve_branch(cls, branches["single"], env0, creators)
+    body_n, env_n = resolve_branch(cls, branches["session"], env0, creators)
+    single = analyse_branch(body_s, SINGLE_TABLE, set(locks), env_s, creators)
+    session = analyse_branch(body_n, SESSION_TABLE, set(locks), env_n, creators)
+    # percall: no table, exactly one creation, returned directly
+    pc = [st for st in branches["percall"] if not is_log_stmt(st)]
     pc_nodes = list(ast.walk(ast.Module(body=pc, type_ignores=[])))
-    need(not any(table_of(n) for n in pc_nodes), "'percall' branch touches an instance table")
-    pc_creates = [n for n in pc_nodes if isinstance(n, ast.Call) and isinstance(n.func, ast.Name) and n.func.id == "createInstance"]
-    need(len(pc_creates) == 1, "'percall' branch calls createInstance %d times" % len(pc_creates))
+    need(not any(isinstance(n, ast.Attribute) and n.attr in (SINGLE_TABLE[1], SESSION_TABLE[1]) for n in pc_nodes),
+         "'percall' branch touches an instance table")
+    pc_creates = [n for n in pc_nodes if helper_call(n) in creators]
+    need(len(pc_creates) == 1, "'percall' branch creates an instance at %d places" % len(pc_creates))
     rets = [st for st in pc if isinstance(st, ast.Return)]
-    need(len(rets) == 1 and rets[0].value is pc_creates[0], "'percall' branch does not `return createInstance(...)`")
+    need(len(rets) == 1 and rets[0].value is pc_creates[0], "'percall' branch does not return the new instance directly")
     need(not any(isinstance(n, (ast.While, ast.For)) for n in pc_nodes), "loop in the 'percall' branch")
-    # the tables must not be touched elsewhere in _getInstance
+    helpers = sorted(set(env_s["helpers"] + env_n["helpers"]) | (creators & {n.name for n in cls.body if isinstance(n, ast.FunctionDef)}))
     su, _ = parse(tree, "Pyro5/socketutil.py")
-    clears = close_clears(su)
+    clears, close_mode = close_clears(tree, su)
     info = {"single_test": single["test"], "session_test": session["test"], "single_locked": single["locked"],
             "lock_attr": single["lock_attr"], "lock_kind": locks.get(single["lock_attr"]) if single["lock_attr"] else None,
-            "session_locked": session["locked"], "close_clears": clears, "other_sites": other_table_sites(tree),
+            "session_locked": session["locked"], "close_clears": clears, "close_mode": close_mode,
+            "other_sites": other_table_sites(tree, helpers), "helpers": helpers,
             "single_accesses": single["inside"], "session_accesses": session["inside"],
             "ast_sha": ast_sha(func)}
     return info
@@ -279,6 +433,7 @@ def gen_instances(tree):
     out += "(* 'single' branch: %s; lock: %s (%s) *)\n" % (
         ["%s@%d:%s" % (w, ln, "in" if i else "OUT") for w, i, ln in info["single_accesses"]], info["lock_attr"], info["lock_kind"])
     out += "(* 'session' branch: %s *)\n" % (["%s@%d" % (w, ln) for w, i, ln in info["session_accesses"]],)
+    out += "(* helpers followed: %s; close(): %s *)\n" % (info["helpers"], info["close_mode"].split(" (")[0])
     out += "Definition code_shape : shape :=\n  mk_shape %s   (* test on the looked-up single instance *)\n" % info["single_test"]
     out += "           %s   (* test on the looked-up session instance *)\n" % info["session_test"]
     out += "           %s   (* lookup, creation and store of the single instance inside one lock region *)\n" % cbool(info["single_locked"])
